@@ -129,6 +129,15 @@ func (c *countingClient) Get(t uint64) (protocol.Version, error) {
 	return sharedVersion{inner: v, c: c}, nil
 }
 
+// BoundedClient wraps a protocol client so that more than limit Apply calls (in total) panic with
+// wire.ErrStepBound; checks that drive the real processor indirectly (document handler) use it so that a
+// non-terminating resolution becomes a reported failure instead of a hang.
+func BoundedClient(pc protocol.Client, limit int) protocol.Client {
+	calls := 0
+	var log []wire.ApplyEvent
+	return &countingClient{inner: pc, calls: &calls, limit: limit, log: &log}
+}
+
 // Resolve resolves suffix over the given published store content (returned in exactly this order) and
 // unpublished operations. A panic is caught and reported in Outcome.Panic. The number of Apply calls is
 // bounded by 4*len(ops)+8 (exceeding it is reported as a non-termination panic).
